@@ -178,6 +178,27 @@ def d_table_fixed_row():
         [("ts", ("oneof", [("tuple", "row_b", ("uint", 16))]))], None
 
 
+def d_length_key_uint():
+    k = B.length_key("len", B.dop("u8", 8), 1)
+    d = B.dop("pl", dct=B.param_length_type(k))
+    return B.request([B.coded_const("sid", 0x22, 0), k, B.value_param("v", d), B.coded_const("end", 0x55)]), \
+        [("len", ("dependent", 8)), ("v", ("dependent", 32))], None
+
+
+def d_length_key_bytes():
+    k = B.length_key("len", B.dop("u8", 8), 1)
+    d = B.dop("plb", dct=B.param_length_type(k, DataType.A_BYTEFIELD), dt=DataType.A_BYTEFIELD)
+    return B.request([B.coded_const("sid", 0x22, 0), k, B.value_param("blob", d), B.coded_const("end", 0x55)]), \
+        [("len", ("dependent", 8)), ("blob", ("bytes", 0, 3))], None
+
+
+def d_struct_bytesize_then_minmax():
+    st = B.structure("st", [B.value_param("a", B.dop("u8", 8))], byte_size=3)
+    d = B.dop("mm0", dct=B.minmax_type(DataType.A_BYTEFIELD, 0, 3, "END_OF_PDU"), dt=DataType.A_BYTEFIELD)
+    return B.request([B.coded_const("sid", 0x22, 0), B.value_param("s", st), B.value_param("blob", d)]), \
+        [("s", ("dict", [("a", ("uint", 8))])), ("blob", ("bytes", 0, 3))], None
+
+
 def d_linear_limited():
     d = B.dop("lim", dct=B.std_type(8), compu_method=B.linear(0, 1, DataType.A_UINT32, DataType.A_UINT32, 0, 100))
     return B.request([B.coded_const("sid", 0x2E, 0), B.value_param("pct", d, 1)]), [("pct", ("uint", 8))], None
@@ -209,6 +230,8 @@ DESCRIPTIONS = {
     "leading-length-bytes": d_leading_length_bytes, "leading-length-text": d_leading_length_text,
     "dynamic-length-field": d_dynamic_length_field, "dtc": d_dtc, "multiplexer": d_multiplexer,
     "table-key+struct": d_table_key_struct, "table-fixed-row": d_table_fixed_row,
+    "length-key-uint": d_length_key_uint, "length-key-bytes": d_length_key_bytes,
+    "struct-bytesize+minmax0": d_struct_bytesize_then_minmax,
 }
 
 FUNCTIONS = [Request.encode, Request.decode, Response.encode, Response.decode,
@@ -228,6 +251,8 @@ def _value(name, kind):
         return H.int(f"val_{name}")
     if kind[0] == "sint":
         return H.int(f"val_{name}")
+    if kind[0] == "dependent":
+        return H.int(f"val_{name}")  # an integer whose admissibility depends on other values (length keys)
     if kind[0] == "affine":
         # physical->internal conversions round to the nearest internal value (C07): only physical values in the image
         # of the compu method (factor * k + offset) are represented exactly, so these are the values to round-trip
@@ -248,14 +273,27 @@ def _value(name, kind):
     raise ValueError(kind)
 
 
+def _acceptable(kind, value):
+    """is the value inside the range of its physical type?  None: not stated here (the admissible set depends on the
+    description in a way this helper does not spell out)"""
+    if kind[0] == "uint":
+        return H.And(value >= 0, value < (1 << kind[1]))
+    if kind[0] == "dict":
+        parts = [_acceptable(k, value[n]) for (n, k) in kind[1]]
+        if any([q is None for q in parts]):
+            return None
+        return H.And(parts)
+    return None
+
+
 def _fam(tier, seed):
     return [{"desc": k} for k in DESCRIPTIONS]
 
 
 @harness(props=["C01", "C02", "C03", "C04", "C05", "C08"], strength="B", family=_fam,
-         bound="27 concrete request/response descriptions built from the real parameter / DOP / diag-coded-type classes "
+         bound="30 concrete request/response descriptions built from the real parameter / DOP / diag-coded-type classes "
          "(constants, defaults, reserved bits, low-high and non-aligned values, linear compu method, request echoes, "
-         "MIN-MAX-LENGTH types with the three terminations, PHYS-CONST, SYSTEM, structures with and without BYTE-SIZE, end-of-PDU, static and dynamic-length fields, LEADING-LENGTH types, DTC DOP, multiplexer, table key/struct); per description every value is "
+         "MIN-MAX-LENGTH types with the three terminations, PHYS-CONST, SYSTEM, structures with and without BYTE-SIZE, end-of-PDU, static and dynamic-length fields, LEADING-LENGTH types, DTC DOP, multiplexer, table key/struct, PARAM-LENGTH-INFO types with their length key); per description every value is "
          "symbolic",
          functions=FUNCTIONS, covers=["encoded", "rejected"], assumes=["A-bitstruct", "A-lib"],
          limits={"max_paths": 40000, "task_timeout": 1500, "sym_for_unroll": 12}, use_contracts=["bcd"])
@@ -282,6 +320,12 @@ def roundtrip_through_the_real_stack(desc):
     except OdxError:
         H.cover("rejected")
         H.check("C04:rejections-are-odxtools-errors-never-foreign-exceptions", True)
+        # the converse of "required": with every required parameter given and every given value inside the range of
+        # its type, nothing justifies a rejection (only stated for descriptions whose value ranges are plain)
+        ok = [_acceptable(kind, values[name]) for (name, kind) in specs if name in values]
+        if not trigger and all([q is not None for q in ok]):
+            H.check("C08:only-required-parameters-are-needed-for-encoding",
+                    H.Or(H.Not(H.And(ok)), any([n in required for n in omitted])))
         return
     except Exception:
         H.check("C04:rejections-are-odxtools-errors-never-foreign-exceptions", False)
@@ -335,13 +379,14 @@ def roundtrip_through_the_real_stack(desc):
 
 
 @harness(props=["C05"], strength="B", family=_fam,
-         bound="the same 27 concrete descriptions; the message is a symbolic byte string of 0..8 bytes",
+         bound="the same concrete descriptions; the message is a symbolic byte string of 0..8 bytes (0..14 for the length-key descriptions, so that keys beyond 64 bits are reachable)",
          functions=FUNCTIONS, covers=["decoded", "rejected"], assumes=["A-bitstruct", "A-lib"],
          limits={"max_paths": 40000, "task_timeout": 1500, "sym_for_unroll": 12}, use_contracts=["bcd"])
 def decoding_arbitrary_bytes_is_total(desc):
     """decoding any byte string with a real description returns or raises DecodeError - nothing else escapes"""
     codec, specs, trigger = DESCRIPTIONS[desc]()
-    message = H.bytes("message", 0, 8)
+    message = H.bytes("message", 0, 14 if desc.startswith("length-key") else 8)
+    static = codec.get_static_bit_length()
     try:
         codec.decode(message)
     except DecodeError:
@@ -353,6 +398,8 @@ def decoding_arbitrary_bytes_is_total(desc):
         return
     H.cover("decoded")
     H.check("C05:only-decode-errors-escape-the-decoder", True)
+    if static is not None:
+        H.check("C05:a-pdu-shorter-than-the-static-size-is-rejected", 8 * len(message) >= static)
 
 
 # ---------------------------------------------------------------------------------------------------------------
@@ -377,13 +424,14 @@ def _nrc_service():
 
 
 @harness(props=["C17", "C06"], strength="B",
-         family=lambda t, s: [{"desc": k} for k in list(DESCRIPTIONS) + ["nrc-const-service"]],
-         bound="the 27 concrete descriptions plus one service with two NRC-CONST negative responses; values and "
+         family=lambda t, s: [{"desc": k, "phase": ph} for k in DESCRIPTIONS for ph in ("encode", "decode")] +
+         [{"desc": "nrc-const-service", "phase": "decode"}],
+         bound="the 30 concrete descriptions plus one service with two NRC-CONST negative responses; values and "
          "messages symbolic",
          functions=FUNCTIONS + [DiagService.decode_message], covers=["strict-success"],
          assumes=["A-bitstruct", "A-lib"], limits={"max_paths": 40000, "task_timeout": 1500, "sym_for_unroll": 12}, use_contracts=["bcd"],
          crosscheck=False)
-def strict_success_implies_same_result_in_lenient_mode(desc):
+def strict_success_implies_same_result_in_lenient_mode(desc, phase):
     """whenever encoding / decoding succeeds in strict mode, the same call in non-strict mode returns the same result"""
     if desc == "nrc-const-service":
         svc = _nrc_service()
@@ -404,6 +452,9 @@ def strict_success_implies_same_result_in_lenient_mode(desc):
                 H.And(m1.coding_object is m2.coding_object, H.eq(m1.param_dict, m2.param_dict)))
         return
     codec, specs, trigger = DESCRIPTIONS[desc]()
+    if phase == "decode":
+        _same_decoding_in_both_modes(codec)
+        return
     values = {name: _value(name, kind) for (name, kind) in specs}
     request_bytes = H.bytes("triggering_request", 4, 4) if trigger else None
     results = []
@@ -424,6 +475,9 @@ def strict_success_implies_same_result_in_lenient_mode(desc):
             return
     H.cover("strict-success")
     H.check("C17:encoding-gives-the-same-pdu-in-both-modes", H.eq(results[0], results[1]))
+
+
+def _same_decoding_in_both_modes(codec):
     message = H.bytes("message", 0, 6)
     decoded = []
     for strict in (True, False):
@@ -440,4 +494,5 @@ def strict_success_implies_same_result_in_lenient_mode(desc):
                 return
             H.check("C17:strict-success-implies-lenient-success", False)
             return
+    H.cover("strict-success")
     H.check("C17:decoding-gives-the-same-values-in-both-modes", H.eq(decoded[0], decoded[1]))
